@@ -357,20 +357,8 @@ def oldestRetained (d : Disk) : Nat → Nat → Option Nat
   | 0, _ => none
   | fuel + 1, b => if (d (.commit b)).isSome then some b else oldestRetained d fuel (b + 1)
 
-/-- The per-block batches of `pruneHashKeyedUpto` (batch threshold 1: every block its own batch);
-the carve-out for `endExcl-1` keeps its hash→number entry. -/
-def pruneBlockBatches (d : Disk) (endExcl : Nat) : Nat → Nat → List Write → Option (List (List Write))
-  | 0, _, acc => some [acc]
-  | cnt + 1, b, acc =>
-    match getBlk d (.su b), getBlk d (.txs b) with
-    | some su, some tb =>
-      let ws := acc ++ (if b + 1 = endExcl then [] else [Write.del (.numByHash su.hash)])
-        ++ tb.txs.map (fun t => Write.del (.txLookup t))
-      (pruneBlockBatches d endExcl cnt (b + 1) []).map (fun rest => ws :: rest)
-    | _, _ => none
-
-/-- `PruneBlockDataUpto`: range deletes (the headers keep a lag of `lag` blocks; windows entirely
-below the aligned end go). -/
+/-- `PruneBlockDataUpto(end)`: range deletes (the headers keep a lag of `lag` blocks; windows
+entirely below the aligned end go). -/
 def pruneRange (W lag endExcl : Nat) : List Write :=
   [.delWhere (fun k => match k with
       | .header n => decide (n + lag < endExcl)
@@ -383,7 +371,37 @@ def pruneRange (W lag endExcl : Nat) : List Write :=
 /-- `core.BlockHashLag`. -/
 def blockHashLag : Nat := 10
 
-def prunePlan (W : Nat) (n : Node) (endExcl : Nat) : Plan :=
+/-- The point deletes of one iteration of the sweep. -/
+def blockDels (prev : Option Nat) (tb : Block) : List Write :=
+  (match prev with
+    | some h => [Write.del (.numByHash h)]
+    | none => [])
+  ++ tb.txs.map (fun t => Write.del (.txLookup t))
+
+/-- The sweep of `pruneHashKeyedUpto` (as of 55da2ac): per block, delete the hash→number mapping of
+the block BELOW it (`prev`; one iteration late, so the mapping of the block below wherever the
+sweep stops survives), its transaction-hash lookups (L1-message lookups and legacy state history
+are keyed the same way and abstracted with them); when the pending batch has reached `thr` point
+deletes it is committed TOGETHER WITH the range delete for the blocks it covers
+(`PruneBlockDataUpto(b+1)`) and a new batch is started; the last batch carries
+`PruneBlockDataUpto(end)`. `thr` stands for `targetBatchByteSize` (the harness uses the smallest
+threshold: every non-empty batch is rotated). Reads go to the database, whose records of block
+`b` are untouched by the batches committed before (they only delete below `b`). -/
+def pruneSweep (W lag : Nat) (d : Disk) (thr : Nat) :
+    Nat → Nat → Option Nat → List Write → Option (List (List Write))
+  | 0, b, _, acc => some [acc ++ pruneRange W lag b]
+  | cnt + 1, b, prev, acc =>
+    match getBlk d (.su b), getBlk d (.txs b) with
+    | some su, some tb =>
+      let acc' := acc ++ blockDels prev tb
+      if thr ≤ acc'.length then
+        (pruneSweep W lag d thr cnt (b + 1) (some su.hash) []).map
+          (fun rest => (acc' ++ pruneRange W lag (b + 1)) :: rest)
+      else pruneSweep W lag d thr cnt (b + 1) (some su.hash) acc'
+    | _, _ => none
+
+/-- `pruner.PruneUpto(end, thr)`. -/
+def prunePlanThr (W : Nat) (n : Node) (endExcl thr : Nat) : Plan :=
   match getHeight n.disk with
   | none => ⟨n.disk, [], n.mem, .ok⟩
   | some h =>
@@ -392,15 +410,59 @@ def prunePlan (W : Nat) (n : Node) (endExcl : Nat) : Plan :=
     | some start =>
       if start ≥ endExcl then ⟨n.disk, [], n.mem, .ok⟩
       else
-        let carve : Option (List Write) :=
-          if start = 0 then some []
-          else (getBlk n.disk (.header (start - 1))).map (fun hb => [Write.del (.numByHash hb.hash)])
-        match carve with
+        let prev : Option (Option Nat) :=
+          if start = 0 then some none
+          else (getBlk n.disk (.header (start - 1))).map (fun hb => some hb.hash)
+        match prev with
         | none => ⟨n.disk, [], n.mem, .err .notfound⟩
-        | some c0 =>
-          match pruneBlockBatches n.disk endExcl (endExcl - start) start c0 with
+        | some p0 =>
+          match pruneSweep W blockHashLag n.disk thr (endExcl - start) start p0 [] with
           | none => ⟨n.disk, [], n.mem, .err .notfound⟩
-          | some bs => ⟨n.disk, bs ++ [pruneRange W blockHashLag endExcl], n.mem, .ok⟩
+          | some bs => ⟨n.disk, bs, n.mem, .ok⟩
+
+def prunePlan (W : Nat) (n : Node) (endExcl : Nat) : Plan := prunePlanThr W n endExcl 1
+
+/-! ### The pruning node's filter initialiser (`pruner.InitializeRunningEventFilter`) -/
+
+/-- Backward scan of `pruner.rebuildRunningEventFilter`, bounded by the aligned retention floor:
+`(continueFrom, windowStart)`. -/
+def scanBackP (W : Nat) (d : Disk) (floor floorAligned : Nat) : Nat → Nat → Nat × Nat
+  | 0, lo => if (getWin d lo).isSome then (lo + W, lo + W) else (floor, floorAligned)
+  | fuel + 1, lo =>
+    if (getWin d lo).isSome then (lo + W, lo + W)
+    else if lo ≤ floorAligned then (floor, floorAligned)
+    else scanBackP W d floor floorAligned fuel (lo - W)
+
+/-- `pruner.InitializeRunningEventFilter`: like `initFilter`, aware of the retention floor — a
+same-window resume from the snapshot is clamped to the floor (the headers below it may be gone;
+bits of pruned blocks stay as harmless false positives), a rebuild does not look for persisted
+windows below the floor's window and, without an anchor, roots the window at the aligned floor
+and fills from the floor itself. -/
+def initFilterP (W : Nat) (d : Disk) : Option (Filt × Disk) :=
+  match getHeight d with
+  | none => some (⟨Win.empty 0, 0⟩, d)
+  | some latest =>
+    let floor := (oldestRetained d (latest + 1) 0).getD 0
+    let rebuildP : Option (Filt × Disk) :=
+      let (cont, ws) := scanBackP W d floor (wstart W floor) (latest / W + 1) (wstart W latest)
+      fill W (latest + 1 - cont) cont ⟨Win.empty ws, cont⟩ d
+    match d .snap with
+    | some (.snap w nx) =>
+      if nx = latest + 1 then some (⟨w, nx⟩, d)
+      else if nx ≤ latest ∧ latest ≤ w.lo + (W - 1) then
+        let nx' := max nx floor
+        fill W (latest + 1 - nx') nx' ⟨w, nx'⟩ d
+      else rebuildP
+    | _ => rebuildP
+
+/-- `ensureInit` of a pruning node. -/
+def ensureInitP (W : Nat) (n : Node) : Node :=
+  match n.mem with
+  | .lazy =>
+    match initFilterP W n.disk with
+    | some (f, d') => ⟨d', .ready f⟩
+    | none => ⟨n.disk, .broken⟩
+  | _ => n
 
 def plan (W : Nat) (fx : Fixes) (n : Node) : Op → Plan
   | .store b => storePlan W n b
